@@ -1650,6 +1650,12 @@ class Models:
             if name == "get":
                 nm = self.name_term(args[0])
                 default = args[1] if len(args) > 1 else None
+                if ip.path.guards and isinstance(default, (int, SInt)) and not isinstance(default, bool):
+                    # inside a lazily evaluated sequence element: an integer-valued lookup with an integer default is
+                    # handed back as one term instead of forking
+                    lk = recv.lookup(nm)
+                    if isinstance(lk, (int, SInt)) and not isinstance(lk, bool):
+                        return SInt(z3.If(recv.indom(nm), num_term(lk), num_term(default)))
                 if ip.path.branch(recv.indom(nm), f"key in {recv.desc}"):
                     return recv.lookup(nm)
                 return default
